@@ -62,6 +62,7 @@ class World:
         self.drops: list[dict] = []
         self.next_id = 0
         self.events: list[str] = []
+        self.mixed = False
 
     # -- helpers
     def _free(self, pos, r, ignore=None, gap=0.25) -> bool:
@@ -181,12 +182,18 @@ class World:
     def snapshot(self) -> tuple[list[dict], list[int]]:
         specs, ids = [], []
         for d in self.drops:
-            s = {"cls": self.cls, "position": list(d["pos"]), "radius": d["r"]}
-            if self.cls != "SphericalDroplet":
+            cls = self.cls
+            if self.mixed:  # a time course may hold droplets of several classes
+                opts = ["SphericalDroplet", "DiffuseDroplet"] + (
+                    ["PerturbedDroplet2D"] if self.dim == 2 else []) + (
+                    ["PerturbedDroplet3D"] if self.dim == 3 else [])
+                cls = opts[d["id"] % len(opts)]
+            s = {"cls": cls, "position": list(d["pos"]), "radius": d["r"]}
+            if cls != "SphericalDroplet":
                 s["interface_width"] = d["w"]
-            if self.cls == "PerturbedDroplet2D":
+            if cls == "PerturbedDroplet2D":
                 s["amplitudes"] = [0.0625, -0.03125]
-            if self.cls == "PerturbedDroplet3D":
+            if cls == "PerturbedDroplet3D":
                 s["amplitudes"] = [0.0625]
             specs.append(s)
             ids.append(d["id"])
@@ -232,6 +239,9 @@ def random_history(rng: random.Random, *, allow_overlap: bool, small_motion: boo
                             + (["PerturbedDroplet2D"] if d == 2 else [])
                             + (["PerturbedDroplet3D"] if d == 3 else []))
     w = World(rng, box, cls, allow_overlap, small_motion)
+    w.mixed = rng.random() < 0.1
+    if rng.random() < 0.04 and not small_motion:
+        max_drops = 20  # an occasional crowded history
     n0 = rng.choice([0, 1, 2, 3, 4, 5, max_drops])
     if small_motion:
         n0 = max(1, n0)
